@@ -5,6 +5,7 @@ configuration classes' __init__ / property bodies, replayed along the MRO (super
 Nothing under the repository is imported or executed.
 """
 import ast
+import copy
 import re
 
 from ..consteval import Resources
@@ -460,23 +461,11 @@ def check_mechanisms(chk, idx):
         chk.ok(R, c.mod.path, '%s.%s' % (c.name, m), 'currency handling is selected by extract_type/source.type == SYS_UNIT_CURRENCY', fn.lineno)
     # -- compound merge: 1 / ratio with ratio = currency_fraction_num_map.get(..), mapping string from currency_fraction_mapping.get(..)
     c, fn = _own(idx, NWU + '.parsers.BaseCurrencyParser', '__merge_compound_unit')
-    src_of = {}
-    for a in ast.walk(fn):
-        if isinstance(a, ast.Assign) and len(a.targets) == 1 and isinstance(a.targets[0], ast.Name):
-            for slot in ('currency_fraction_num_map', 'currency_fraction_mapping', 'currency_fraction_code_list',
-                         'currency_name_to_iso_code_map'):
-                if ('self.config.%s.get(' % slot) in _src(a.value):
-                    src_of[a.targets[0].id] = slot
-    divs = [n for n in ast.walk(fn) if isinstance(n, ast.BinOp) and isinstance(n.op, ast.Div)
-            and isinstance(n.left, ast.Constant) and n.left.value == 1 and isinstance(n.right, ast.Name)
-            and src_of.get(n.right.id) == 'currency_fraction_num_map']
-    if not divs:
-        raise AnalysisError('BaseCurrencyParser.__merge_compound_unit: "1 / currency_fraction_num_map.get(..)" not found; '
-                            'rule C05.ratio must be revisited')
-    guarded = [n for n in ast.walk(fn) if isinstance(n, ast.If) and any(d in list(ast.walk(n)) for d in divs)]
-    tests = ' '.join(_src(g.test) for g in guarded)
-    rname = divs[0].right.id
-    out['ratio_none_guard'] = bool(re.search(r'\b%s\s+is\s+not\s+None\b|\band\s+%s\s+and\b|^%s\s+and\b' % (rname, rname, rname), tests))
+    out['merge'] = analyse_merge(c, fn)
+    tests = out['merge']['named_tests']
+    rname = out['merge']['named'].get('div_name')
+    out['ratio_none_guard'] = bool(rname and re.search(
+        r'\b%s\s+is\s+not\s+None\b|\band\s+%s\s+and\b|^%s\s+and\b' % (rname, rname, rname), tests))
     cc = [n for n in _calls(fn, '__check_units_string_contains')]
     if len(cc) != 1 or len(cc[0].args) != 2 or not isinstance(cc[0].args[1], ast.Name):
         raise AnalysisError('BaseCurrencyParser.__merge_compound_unit: __check_units_string_contains call not recognised')
@@ -495,8 +484,9 @@ def check_mechanisms(chk, idx):
         and _src(n.test) in ('not ' + p2, p2 + ' is None') for n in ast.walk(fn3)) or bool(
         re.search(r'\b%s\s+(and|is\s+not\s+None)\b' % fus, tests))
     chk.ok(R, c.mod.path, 'BaseCurrencyParser.__merge_compound_unit',
-           'fraction merged as number * (1 / ratio[unit]) [None guard: %s]; membership of the fraction code tested by '
-           'bind_units_string over currency_fraction_mapping.get(main code) [None guard: %s]'
+           'accumulator additions located (named fraction unit / bare trailing number; judged by C05.ratio-use) [ratio None '
+           'guard: %s]; membership of the fraction code tested by bind_units_string over '
+           'currency_fraction_mapping.get(main code) [None guard: %s]'
            % (out['ratio_none_guard'], out['fracmap_none_guard']), fn.lineno)
     # -- isoCurrency producers
     c, fn = _own(idx, NWU + '.parsers.BaseCurrencyParser', 'parse')
@@ -529,6 +519,186 @@ def check_mechanisms(chk, idx):
     out['preprocess'] = load_preprocess(chk, idx)
     chk.ok(R, c.mod.path, 'AbstractNumberWithUnitModel.parse', 'query = QueryProcessor.preprocess(query, case_sensitive=True)', fn.lineno)
     return out
+
+
+# ---- dataflow over BaseCurrencyParser.__merge_compound_unit -------------------------------------------
+
+def _parents(root):
+    par = {}
+    for n in ast.walk(root):
+        for ch in ast.iter_child_nodes(n):
+            par[ch] = n
+    return par
+
+
+def _in_field(par, node, anc, field):
+    """is `node` below the statement list `field` of ancestor `anc`?"""
+    cur = node
+    while cur in par and par[cur] is not anc:
+        cur = par[cur]
+    return par.get(cur) is anc and cur in getattr(anc, field, [])
+
+
+def _split_div(e):
+    """addend -> (numerator expr, divisor expr | None): x * (1 / D) | (1 / D) * x | x / D, through `.. if c else ..`"""
+    if isinstance(e, ast.IfExp):
+        return _split_div(e.body)
+    if isinstance(e, ast.BinOp) and isinstance(e.op, ast.Div):
+        return e.left, e.right
+    if isinstance(e, ast.BinOp) and isinstance(e.op, ast.Mult):
+        for a, b in ((e.left, e.right), (e.right, e.left)):
+            if isinstance(b, ast.BinOp) and isinstance(b.op, ast.Div) and isinstance(b.left, ast.Constant) and b.left.value == 1:
+                return a, b.right
+    return e, None
+
+
+def analyse_merge(cls, fn):
+    """locate the two additions to the amount accumulator and describe the provenance of their divisors.
+    AnalysisError only when the function cannot be read; a divisor of another provenance is data for C05.ratio-use."""
+    W = 'BaseCurrencyParser.__merge_compound_unit'
+    par = _parents(fn)
+    cr = _calls(fn, '__create_currency_result')
+    accs = {c.args[2].id for c in cr if len(c.args) == 4 and isinstance(c.args[2], ast.Name)}
+    if len(accs) != 1:
+        raise AnalysisError('%s: amount accumulator (3rd argument of __create_currency_result) not recognised' % W)
+    acc = accs.pop()
+    loops = [n for n in fn.body if isinstance(n, (ast.While, ast.For))]
+    if len(loops) != 1:
+        raise AnalysisError('%s: element loop not recognised' % W)
+    loop = loops[0]
+    adds = []
+    for n in ast.walk(loop):
+        if isinstance(n, ast.Assign) and len(n.targets) == 1 and isinstance(n.targets[0], ast.Name) and n.targets[0].id == acc \
+                and isinstance(n.value, ast.BinOp) and isinstance(n.value.op, ast.Add) \
+                and isinstance(n.value.left, ast.Name) and n.value.left.id == acc:
+            adds.append((n, n.value.right))
+        elif isinstance(n, ast.AugAssign) and isinstance(n.op, ast.Add) and isinstance(n.target, ast.Name) and n.target.id == acc:
+            adds.append((n, n.value))
+
+    def enclosing_ifs(n):
+        res = []
+        cur = n
+        while cur in par and cur is not loop:
+            p = par[cur]
+            if isinstance(p, ast.If):
+                res.append((p, 'body' if _in_field(par, n, p, 'body') else 'orelse'))
+            cur = p
+        return res
+
+    named, bare = [], []
+    for st, addend in adds:
+        ifs = enclosing_ifs(st)
+        if any('Constants.SYS_NUM' in _src(i.test) and f == 'body' for i, f in ifs):
+            bare.append((st, addend, ifs))
+        elif any('__check_units_string_contains' in _src(i.test) and f == 'body' for i, f in ifs):
+            named.append((st, addend, ifs))
+        else:
+            raise AnalysisError('%s:%d addition to %s in a branch that is neither the bare-number nor the fraction-unit branch'
+                                % (W, st.lineno, acc))
+    if len(named) != 1 or len(bare) > 1:
+        raise AnalysisError('%s: expected one addition for a named fraction unit (found %d) and at most one for a bare number '
+                            '(found %d)' % (W, len(named), len(bare)))
+    # the branch that initialises a group from its MAIN unit: the If whose orelse holds the named addition
+    main_ifs = [i for i, f in named[0][2] if f == 'orelse']
+    if not main_ifs:
+        raise AnalysisError('%s: main-unit branch (if count == 0) not recognised' % W)
+    main_if = main_ifs[-1]
+    defs = {}
+    for n in ast.walk(fn):
+        if isinstance(n, ast.Assign) and len(n.targets) == 1 and isinstance(n.targets[0], ast.Name):
+            defs.setdefault(n.targets[0].id, []).append(n)
+    in_loop = set(ast.walk(loop))
+    main_carried = set()
+    for name, ds in defs.items():
+        inl = [d for d in ds if d in in_loop]
+        if inl and all(_in_field(par, d, main_if, 'body') for d in inl):
+            main_carried.add(name)
+
+    def sources(e, depth=0, seen=()):
+        """expand local names to the expressions they may hold (flow-insensitive); main-carried names stay opaque"""
+        if depth > 8:
+            return [e]
+        if isinstance(e, ast.IfExp):
+            return sources(e.body, depth + 1, seen) + sources(e.orelse, depth + 1, seen)
+        if isinstance(e, ast.Name):
+            if e.id in main_carried:
+                return [ast.Name(id='<main-unit group>.' + e.id, ctx=ast.Load())]
+            if e.id in defs and e.id not in seen:
+                res = []
+                for d in defs[e.id]:
+                    res += sources(d.value, depth + 1, seen + (e.id,))
+                return res
+            return [e]
+        if isinstance(e, ast.Attribute):
+            return [ast.Attribute(value=v, attr=e.attr, ctx=ast.Load()) for v in sources(e.value, depth + 1, seen)]
+        return [e]
+
+    def describe(div):
+        """divisor expr -> dict(kind, text, lookups=[(slot, [key source strings])], consts, others, carried)"""
+        d = {'text': _src(div) if div is not None else None, 'lookups': [], 'consts': [], 'others': [],
+             'carried': isinstance(div, ast.Name) and div.id in main_carried,
+             'div_name': div.id if isinstance(div, ast.Name) else None}
+        if div is None:
+            return d
+        exprs = []
+        if isinstance(div, ast.Name) and div.id in defs:
+            for a in defs[div.id]:
+                exprs += sources(a.value, seen=(div.id,))
+        else:
+            exprs = sources(div)
+        for e in exprs:
+            if isinstance(e, ast.Constant):
+                d['consts'].append(e.value)
+            elif isinstance(e, ast.Attribute) and isinstance(e.value, ast.Name) and e.value.id == 'self' and e.attr in cls.attrs \
+                    and isinstance(cls.attrs[e.attr], ast.Constant):
+                d['consts'].append(cls.attrs[e.attr].value)
+            elif isinstance(e, ast.Call) and isinstance(e.func, ast.Attribute) and e.func.attr == 'get' and e.args \
+                    and _src(e.func.value).startswith('self.config.'):
+                slot = _src(e.func.value)[len('self.config.'):]
+                d['lookups'].append((slot, sorted({_src(k) for k in sources(e.args[0]) if not isinstance(k, ast.Constant)}), _src(e)))
+            elif isinstance(e, ast.Subscript) and _src(e.value).startswith('self.config.'):
+                slot = _src(e.value)[len('self.config.'):]
+                d['lookups'].append((slot, sorted({_src(k) for k in sources(e.slice) if not isinstance(k, ast.Constant)}), _src(e)))
+            else:
+                d['others'].append(_src(e))
+        return d
+
+    res = {'acc': acc, 'main_carried': sorted(main_carried),
+           'named_tests': ' '.join(_src(i.test) for i, f in named[0][2])}
+    num, div = _split_div(named[0][1])
+    res['named'] = describe(div)
+    res['named'].update(line=named[0][0].lineno, addend=_src(named[0][1]),
+                        numerator=sorted({_src(x) for x in (sources(a) for a in ast.walk(num) if isinstance(a, (ast.Name, ast.Attribute))
+                                                                   ) for x in x} if num is not None else []))
+    if bare:
+        num, div = _split_div(bare[0][1])
+        res['bare'] = describe(div)
+        res['bare'].update(line=bare[0][0].lineno, addend=_src(bare[0][1]))
+    else:
+        res['bare'] = None
+    return res
+
+
+def ratio_use_problem(d):
+    """C05.ratio-use detector on the description of the named-fraction divisor: None when the amount added is
+    number / R with R looked up in currency_fraction_num_map under the name of THAT fraction unit"""
+    if d['text'] is None:
+        return 'the amount added for a named fraction unit (%s) is not divided by anything' % d.get('addend')
+    if d['carried']:
+        return ('the divisor `%s` is assigned only while the MAIN unit of the group is processed (%s): it does not depend on '
+                'which fraction unit follows' % (d['text'], '; '.join(l[2] for l in d['lookups']) or ', '.join(map(str, d['consts']))))
+    if d['others']:
+        return 'the divisor `%s` may hold %s, which is not a CurrencyFractionalRatios lookup' % (d['text'], '; '.join(d['others'][:3]))
+    if not d['lookups']:
+        return 'the divisor `%s` is the constant %s for every fraction unit' % (d['text'], d['consts'])
+    for slot, keys, text in d['lookups']:
+        if slot != 'currency_fraction_num_map':
+            return 'the divisor `%s` is looked up in config.%s (%s), not in config.currency_fraction_num_map' % (d['text'], slot, text)
+        badk = [k for k in keys if '<main-unit group>' in k or not k.endswith('.unit')]
+        if badk or not keys:
+            return ('the divisor `%s` is currency_fraction_num_map looked up under %s, not under the name of the fraction unit '
+                    'being merged' % (d['text'], badk or text))
+    return None
 
 
 def _const_str(node, env):
@@ -636,10 +806,41 @@ def read_registrations(idx):
         raise AnalysisError('anchor vanished: NumberWithUnitRecognizer.initialize_configuration')
     mod = rec.mod
     regs = []
+    local = {}
+
+    class _Subst(ast.NodeTransformer):
+        def visit_Lambda(self, node):
+            shadow = {a.arg for a in node.args.args}
+            saved = {k: local.pop(k) for k in list(local) if k in shadow}
+            try:
+                return self.generic_visit(node)
+            finally:
+                local.update(saved)
+
+        def visit_Name(self, node):
+            if isinstance(node.ctx, ast.Load) and node.id in local:
+                return ast.copy_location(copy.deepcopy(local[node.id]), node)
+            return node
+
     for st in fn.body:
         if isinstance(st, ast.Expr) and isinstance(st.value, ast.Constant):
             continue
         where = '%s:%d' % (mod.rel, st.lineno)
+        if isinstance(st, (ast.Assign, ast.AnnAssign)):
+            tg = st.targets if isinstance(st, ast.Assign) else [st.target]
+            val = st.value
+            pure = isinstance(val, ast.Constant) or (
+                isinstance(val, ast.Call) and isinstance(val.func, (ast.Name, ast.Attribute)) and not any(
+                    isinstance(n, (ast.Lambda, ast.Await, ast.Yield, ast.NamedExpr)) or
+                    (isinstance(n, ast.Name) and n.id == 'self') for n in ast.walk(val))) or (
+                isinstance(val, ast.Attribute) and isinstance(val.value, ast.Name) and val.value.id != 'self')
+            if len(tg) == 1 and isinstance(tg[0], ast.Name) and val is not None and pure:
+                # name = constant | Constructor(...) | Enum.Member : substituted at its uses below
+                local[tg[0].id] = _Subst().visit(copy.deepcopy(val))
+                continue
+            raise AnalysisError('%s: local statement in initialize_configuration is not `name = constant | Constructor(...)`' % where)
+        if isinstance(st, ast.Expr):
+            st = ast.fix_missing_locations(_Subst().visit(copy.deepcopy(st)))
         c = st.value if isinstance(st, ast.Expr) else None
         if not (isinstance(c, ast.Call) and isinstance(c.func, ast.Attribute) and c.func.attr == 'register_model'
                 and isinstance(c.func.value, ast.Name) and c.func.value.id == 'self'):
@@ -718,6 +919,9 @@ def run(chk):
     chk.rule('C05.pair', 'every registered ExtractorParserModel pairs an extractor and a parser configuration of the same '
              'language and entity type; model class = registered name; merged extractor with merged parser; culture matches',
              floor=28, control=True)
+    chk.rule('C05.culture', 'the effective culture of every configuration a registration builds (explicit CultureInfo(Culture.X) '
+             'argument, a local holding one, or the `None -> CultureInfo(Culture.Y)` default of its constructor chain) is the '
+             'registered culture', floor=50, control=True)
     chk.rule('C05.entry', 'recognize_<type> reaches the model registered under the name whose type name is <type>', floor=4)
     chk.rule('C05.tables', 'spellings the extractor configuration matches = spellings the parser configuration binds '
              '(suffix_list + prefix_list values vs unit_map keys); tables non-empty', floor=22, control=True)
@@ -732,8 +936,11 @@ def run(chk):
     chk.rule('C05.case', 'a listed spelling that the term-sensitive lower-casing of the query changes is still in the '
              "extractor's matcher and bound to the same unit in its changed form", floor=40, control=True)
     chk.rule('C05.ratio', 'every fraction unit that can follow a main unit of the same culture (code listed in '
-             'CurrencyFractionMapping[main code]) has a non-zero ratio in CurrencyFractionalRatios (else 1/None)',
+             'CurrencyFractionMapping[main code]) has a non-zero ratio in CurrencyFractionalRatios (else the pair is never merged)',
              floor=200, control=True)
+    chk.rule('C05.ratio-use', 'in __merge_compound_unit the amount added for a NAMED fraction unit is number / R with R = '
+             "config.currency_fraction_num_map[that fraction unit's name]; the bare trailing number is a separate instance "
+             '(constant 100)', floor=2, control=True)
     chk.rule('C05.fracmap', 'every main-unit ISO code a culture can produce has a CurrencyFractionMapping entry '
              '(else bind_units_string(None) when a fraction unit follows)', floor=6, control=True)
     chk.rule('C05.iso', "a currency parser configuration's iso/fraction-code maps are its own resource class's "
@@ -757,6 +964,7 @@ def run(chk):
     ctx = dict(chk=chk, idx=idx, an=an, mech=mech, regs=regs, rec=rec, langs=langs, ebase=ebase, pbase=pbase, consts=consts)
 
     rule_pair(ctx)
+    rule_culture(ctx)
     rule_entry(ctx)
     pairs = {}
     for r in regs:
@@ -775,6 +983,7 @@ def run(chk):
         if pq not in done_p:
             done_p.add(pq)
             nforms += rule_shadow_key_case(ctx, p, ex, pa)
+    rule_ratio_use(ctx)
     rule_currency(ctx)
     rule_purity_dangling(ctx)
     controls(chk, mech)
@@ -844,16 +1053,159 @@ def pair_problems(ctx, r, p, mtype, type_const, merged_e, merged_p, cur_p):
         out.append('extractor configuration is %s, parser configuration is %s' % (el, pl))
     if p.n == 0 and not r.culture.lower().startswith(el):
         out.append('primary pair is %s but the culture is Culture.%s' % (el, r.culture))
-    for side, call, lang in (('extractor', p.eargs, el), ('parser', p.pargs, pl)):
-        for c in culture_args(call):
-            if c != r.culture and not (p.n > 0 and c.lower().startswith(lang)):
-                out.append('%s configuration is built with Culture.%s inside the Culture.%s registration' % (side, c, r.culture))
     em, pm = merged_e in idx.mro(p.ewrap), (merged_p in idx.mro(p.pwrap) or cur_p in idx.mro(p.pwrap))
     if em and not pm:
         out.append('%s yields compound (list) results that %s does not handle' % (p.ewrap.name, p.pwrap.name))
     if mtype == 'currency' and p.n == 0 and not (em and pm):
         out.append('primary currency pair is not BaseMergedUnitExtractor/BaseMergedUnitParser: no compound amounts, no isoCurrency')
     return out
+
+
+# ---- effective culture of a configuration object ------------------------------------------------------
+
+ABSENT = object()
+
+
+def _culture_of(expr, cur, cp):
+    """CultureInfo(Culture.X) -> 'X'; None -> None; the culture parameter itself -> cur; anything else -> OPAQUE"""
+    if isinstance(expr, ast.Constant) and expr.value is None:
+        return None
+    if isinstance(expr, ast.Name) and expr.id == cp:
+        return cur
+    if isinstance(expr, ast.Call) and isinstance(expr.func, ast.Name) and expr.func.id == 'CultureInfo' and len(expr.args) == 1 \
+            and not expr.keywords:
+        a = expr.args[0]
+        if isinstance(a, ast.Attribute) and isinstance(a.value, ast.Name) and a.value.id == 'Culture':
+            return a.attr
+    if isinstance(expr, ast.Attribute) and isinstance(expr.value, ast.Name) and expr.value.id == 'Culture':
+        return expr.attr       # the bare culture code (a str, not a CultureInfo): same culture identity
+    return OPAQUE
+
+
+def _culture_param(fn):
+    for a in fn.args.args[1:]:
+        if a.arg == 'culture_info' or (a.annotation is not None and ast.unparse(a.annotation).endswith('CultureInfo')):
+            return a.arg
+    return None
+
+
+def _pick_arg(fn, cp, args, keywords):
+    """argument expression bound to parameter cp by a call, the parameter's default, or ABSENT"""
+    names = [a.arg for a in fn.args.args][1:]
+    i = names.index(cp)
+    if i < len(args):
+        return args[i]
+    for k in keywords:
+        if k.arg == cp:
+            return k.value
+    nd = len(fn.args.defaults)
+    j = i - (len(names) - nd)
+    if j >= 0:
+        return fn.args.defaults[j]
+    return ABSENT
+
+
+def effective_culture(mro, call_args, call_keywords, start=0, cur_in=None, cp_in=None):
+    """('culture', name | None, trail) | ('none', reason); AnalysisError when the constructor chain cannot be read.
+    mro: list of objects with .name, .methods; trail: how the value was obtained"""
+    for j in range(start, len(mro)):
+        fn = mro[j].methods.get('__init__')
+        if fn is not None:
+            break
+    else:
+        return ('none', 'no constructor takes a culture')
+    k = mro[j]
+    cp = _culture_param(fn)
+    if cp is None:
+        return ('none', '%s.__init__ has no culture parameter' % k.name)
+    e = _pick_arg(fn, cp, call_args, call_keywords)
+    if e is ABSENT:
+        raise AnalysisError('%s.__init__: culture argument is required but not passed' % k.name)
+    cur = _culture_of(e, cur_in, cp_in)
+    trail = ['argument' if (e in call_args or any(e is kw.value for kw in call_keywords)) else 'parameter default']
+    if cur is OPAQUE:
+        raise AnalysisError('%s(...): culture argument %s is not CultureInfo(Culture.X) / None' % (k.name, ast.unparse(e)[:60]))
+    for st in fn.body:
+        if isinstance(st, ast.If):
+            t = st.test
+            isnone = (isinstance(t, ast.Compare) and isinstance(t.left, ast.Name) and t.left.id == cp and len(t.ops) == 1
+                      and isinstance(t.ops[0], ast.Is) and isinstance(t.comparators[0], ast.Constant) and t.comparators[0].value is None) \
+                or (isinstance(t, ast.UnaryOp) and isinstance(t.op, ast.Not) and isinstance(t.operand, ast.Name) and t.operand.id == cp)
+            writes = [a for a in ast.walk(st) if isinstance(a, ast.Assign) and any(isinstance(x, ast.Name) and x.id == cp for x in a.targets)]
+            if not writes:
+                continue
+            if not isnone or st.orelse or len(writes) != 1 or writes[0] not in st.body:
+                raise AnalysisError('%s.__init__:%d conditional culture default not understood' % (k.name, st.lineno))
+            if cur is None:
+                cur = _culture_of(writes[0].value, cur, cp)
+                if cur is OPAQUE:
+                    raise AnalysisError('%s.__init__:%d culture default is not CultureInfo(Culture.X)' % (k.name, st.lineno))
+                trail.append('default of %s.__init__' % k.name)
+            continue
+        if isinstance(st, ast.Assign) and any(isinstance(x, ast.Name) and x.id == cp for x in st.targets):
+            cur = _culture_of(st.value, cur, cp)
+            if cur is OPAQUE:
+                raise AnalysisError('%s.__init__:%d culture reassigned from %s' % (k.name, st.lineno, ast.unparse(st.value)[:60]))
+            trail.append('overwritten in %s.__init__' % k.name)
+            continue
+        if isinstance(st, ast.Expr) and isinstance(st.value, ast.Call) and _is_super_init(st.value):
+            r = effective_culture(mro, st.value.args, st.value.keywords, j + 1, cur, cp)
+            if r[0] == 'culture':
+                return ('culture', r[1], trail + [x for x in r[2] if x not in ('argument', 'parameter default')])
+            continue
+        if isinstance(st, (ast.Assign, ast.AnnAssign)):
+            tg = st.targets if isinstance(st, ast.Assign) else [st.target]
+            if any(_self_attr(x) and x.attr.lstrip('_') == 'culture_info' for x in tg) and st.value is not None:
+                v = _culture_of(st.value, cur, cp)
+                if v is OPAQUE:
+                    raise AnalysisError('%s.__init__:%d culture_info stored from %s' % (k.name, st.lineno, ast.unparse(st.value)[:60]))
+                return ('culture', v, trail)
+    return ('culture', cur, trail)
+
+
+def culture_problem(eff, registered, secondary, lang):
+    """C05.culture detector: eff = effective Culture member name (or None)"""
+    if eff is None:
+        return 'no culture at all (None)'
+    if eff == registered:
+        return None
+    if secondary and eff.lower().startswith(lang):
+        return None     # fallback pair of another language keeps that language's culture
+    return 'Culture.%s' % eff
+
+
+def rule_culture(ctx):
+    chk, idx, rec = ctx['chk'], ctx['idx'], ctx['rec']
+    # does any extractor read its configuration's culture?
+    reads = []
+    for mname, mod in idx.mods.items():
+        if mname.startswith(NWU + '.') and mname.endswith('extractors'):
+            for n in ast.walk(mod.tree):
+                if isinstance(n, ast.Attribute) and n.attr == 'culture_info' and isinstance(n.ctx, ast.Load) \
+                        and not (isinstance(n.value, ast.Name) and n.value.id == 'self'):
+                    reads.append('%s:%d' % (mod.rel, n.lineno))
+    for r in ctx['regs']:
+        for p in r.pairs:
+            for side, cfg, call in (('extractor', p.ecfg, p.eargs), ('parser', p.pcfg, p.pargs)):
+                construct = '%s pair %d %s %s' % (r.construct, p.n, side, cfg.name)
+                res = effective_culture(idx.mro(cfg), call.args, call.keywords)
+                if res[0] == 'none':
+                    chk.exempt('C05.culture', rec.mod.path, construct, res[1], '', p.line)
+                    continue
+                eff, trail = res[1], ' <- '.join(res[2])
+                lang = lang_of(ctx, cfg) or ''
+                prob = culture_problem(eff, r.culture, p.n > 0, lang)
+                detail = 'effective=%s registered=%s' % (eff, r.culture)
+                if prob is None:
+                    chk.ok('C05.culture', rec.mod.path, construct, detail, p.line)
+                elif side == 'extractor' and not reads:
+                    chk.exempt('C05.culture', rec.mod.path, construct, 'effective culture is %s, but no extractor reads '
+                               'config.culture_info (it only matters on the parser side)' % prob, detail, p.line)
+                else:
+                    chk.bad('C05.culture', rec.mod.path, construct, detail,
+                            "%s is built with %s (%s) inside the Culture.%s registration: numbers of Culture.%s input are parsed "
+                            'and formatted with the other culture\'s decimal/thousands marks' % (cfg.name, prob, trail, r.culture, r.culture),
+                            p.line)
 
 
 def rule_entry(ctx):
@@ -1084,6 +1436,36 @@ def rule_shadow_key_case(ctx, p, ex, pa):
     return nforms
 
 
+def rule_ratio_use(ctx):
+    chk, idx = ctx['chk'], ctx['idx']
+    c = idx.cls(NWU + '.parsers.BaseCurrencyParser')
+    m = ctx['mech']['merge']
+    d = m['named']
+    prob = ratio_use_problem(d)
+    construct = 'BaseCurrencyParser.__merge_compound_unit: amount of a named fraction unit'
+    norm = 'divisor=%s lookups=%s consts=%s others=%s carried=%s' % (
+        d['text'], [(sl, k) for sl, k, _ in d['lookups']], sorted(set(map(str, d['consts']))), d['others'], d['carried'])
+    if prob:
+        chk.bad('C05.ratio-use', c.mod.path, construct, norm,
+                "%s += %s: %s. 'N <main> and M <fraction>' must resolve to N + M/ratio[<fraction>] "
+                '(CurrencyFractionalRatios of the fraction unit named in the text, e.g. jiao 10, fen 100, fils 1000)'
+                % (m['acc'], d.get('addend'), prob), d['line'])
+    else:
+        chk.ok('C05.ratio-use', c.mod.path, construct, norm, d['line'])
+    b = m['bare']
+    construct = 'BaseCurrencyParser.__merge_compound_unit: amount of a bare trailing number'
+    if b is None:
+        chk.exempt('C05.ratio-use', c.mod.path, construct, 'no bare-number branch', '')
+    elif b['text'] is not None and not b['lookups'] and not b['others'] and not b['carried'] and set(b['consts']) == {100}:
+        chk.ok('C05.ratio-use', c.mod.path, construct, 'divisor constant 100', b['line'])
+    else:
+        why = 'divisor `%s` <- %s' % (b['text'], [l[2] for l in b['lookups']] + list(map(str, b['consts'])) + b['others'])
+        chk.exempt('C05.ratio-use', c.mod.path, construct,
+                   'a trailing number without a unit is outside the property\'s quantifier (named fraction units); ' + why,
+                   why, b['line'])
+        chk.observe("C05.ratio-use: bare trailing number in 'N <main> and M' is no longer divided by the constant 100 (%s)" % why)
+
+
 # ---- currency code tables ---------------------------------------------------------------------------
 
 SLOTS = (('currency_name_to_iso_code_map', 'own', 'CurrencyNameToIsoCodeMap'),
@@ -1174,9 +1556,8 @@ def rule_currency(ctx):
                         "fraction unit '%s' (code %s) can follow main unit(s) %s of the same culture, but "
                         "CurrencyFractionalRatios has %s for it: %s"
                         % (F, cf, mains[:3], 'no entry' if F not in ratios else 'ratio 0',
-                           'the pair is never merged into N + M/ratio' if ctx['mech']['ratio_none_guard'] or F in ratios else
-                           '__merge_compound_unit computes 1/None; the exception is swallowed by the model and every currency '
-                           'entity of the query is lost'), rline)
+                           "'N <main> and M <fraction>' is never merged into one entity worth N + M/ratio (the two amounts "
+                           'come out as separate entities)'), rline)
             else:
                 chk.ok('C05.ratio', rpath, construct, 'ratio=%r' % ratios.get(F), rline)
         mpath, mline = res_loc(ctx, [(basec.qual, 'CurrencyFractionMapping')])
@@ -1310,6 +1691,41 @@ def controls(chk, mech):
                 and case_problem('Zb', 'Zbyte', 'zb', {'Zb', 'zb'}, {'Zb': 'Zbyte', 'zb': 'Zbit'}, 'suffix') is not None
                 and case_problem('Zork', 'Z', 'zork', {'Zork', 'zork'}, {'Zork': 'Z', 'zork': 'Z'}, 'suffix') is None)
     chk.control('C05.ratio', ratio_hazard('Penique', {'Penny': 100}) and ratio_hazard('X', {'X': 0}) and not ratio_hazard('Penny', {'Penny': 100}))
+    snip = (
+        "class P:\n"
+        "    DEFAULT = 100\n"
+        "    def __merge_compound_unit(self, compound_result):\n"
+        "        number_value = ''\n"
+        "        sub = self.DEFAULT\n"
+        "        idx = 0\n"
+        "        while idx < len(compound_unit):\n"
+        "            extract_result = compound_unit[idx]\n"
+        "            parse_result = self.number_with_unit_parser.parse(extract_result)\n"
+        "            parse_result_value = parse_result.value\n"
+        "            if count == 0:\n"
+        "                main_unit_iso_code = self.config.currency_name_to_iso_code_map.get(parse_result_value.unit, None)\n"
+        "                %s\n"
+        "            else:\n"
+        "                if extract_result.type == Constants.SYS_NUM:\n"
+        "                    number_value = number_value + float(parse_result.value) * (1 / 100)\n"
+        "                    continue\n"
+        "                ratio = self.config.currency_fraction_num_map.get(%s, 0) if parse_result_value else 0\n"
+        "                if code and ratio != 0 and self.__check_units_string_contains(code, s):\n"
+        "                    number_value = number_value + float(parse_result_value.number) * (1 / %s)\n"
+        "            idx = idx + 1\n"
+        "        result = self.__create_currency_result(result, main_unit_iso_code, number_value, main_unit_value)\n")
+
+    def verdict(main_stmt, key, div):
+        k = ast.parse(snip % (main_stmt, key, div)).body[0]
+        fake = type('K', (), {})()
+        fake.attrs = {'DEFAULT': ast.Constant(100)}
+        return ratio_use_problem(analyse_merge(fake, k.body[1])['named'])
+    chk.control('C05.ratio-use',
+                verdict('pass', 'parse_result_value.unit', 'ratio') is None
+                and verdict('sub = self.config.non_standard_fractional_subunits.get(main_unit_iso_code, self.DEFAULT)',
+                            'parse_result_value.unit', 'sub') is not None
+                and verdict('pass', 'main_unit_iso_code', 'ratio') is not None
+                and verdict('pass', 'parse_result_value.unit', '100') is not None)
     chk.control('C05.fracmap', not isinstance({'USD': 'CENT'}.get('__PE'), str))
     chk.control('C05.iso', iso_slot_problem({'Dólar': 'USD'}, {'Dollar': 'USD'}) is not None and iso_slot_problem({}, {'a': 'b'}) is not None
                 and iso_slot_problem({'a': 'b'}, {'a': 'b'}) is None)
@@ -1329,6 +1745,20 @@ def controls(chk, mech):
     chk.control('C05.side', any('Prefix' in a for a, ok in reads if ok) and ('Prefix' in 'BPrefixList'))
     e_sp, p_sp = {'x', 'y'}, {'x'}
     chk.control('C05.tables', sorted(e_sp - p_sp) == ['y'])
+    class _K:
+        def __init__(self, name, src):
+            self.name = name
+            self.methods = {f.name: f for f in ast.parse(src).body[0].body if isinstance(f, ast.FunctionDef)}
+    leaf = _K('Leaf', "class Leaf:\n    def __init__(self, culture_info=None):\n        super().__init__(culture_info)\n")
+    mid = _K('Mid', "class Mid:\n    def __init__(self, culture_info):\n        if culture_info is None:\n"
+                    "            culture_info = CultureInfo(Culture.Spanish)\n        super().__init__(culture_info)\n")
+    base = _K('Base', "class Base:\n    def __init__(self, culture_info):\n        self.culture_info = culture_info\n")
+    c_def = effective_culture([leaf, mid, base], [], [])
+    c_arg = effective_culture([leaf, mid, base], [ast.parse('CultureInfo(Culture.SpanishMexican)', mode='eval').body], [])
+    chk.control('C05.culture', c_def[:2] == ('culture', 'Spanish') and c_arg[:2] == ('culture', 'SpanishMexican')
+                and culture_problem(c_def[1], 'SpanishMexican', False, 'spanish') is not None
+                and culture_problem(c_arg[1], 'SpanishMexican', False, 'spanish') is None
+                and culture_problem('English', 'Chinese', True, 'english') is None)
     chk.control('C05.pair', 'spanishmexican'.startswith('spanish') and not 'french'.startswith('spanish'))
 
 
@@ -1341,7 +1771,7 @@ META = {
             'key collision; prefix/suffix side; no spelling shadowed under first-binding-wins; every bound spelling is found '
             'again by the parser\'s key normalisation (connector-token strip, brackets, exact-then-lowered lookup); every '
             'spelling survives the query\'s term-sensitive lower-casing with the same unit; fraction units have a non-zero '
-            'ratio and main codes a CurrencyFractionMapping entry (the 1/None and None.strip() hazards of '
+            'ratio and main codes a CurrencyFractionMapping entry (missing ratio = never merged; None.strip() hazard of '
             '__merge_compound_unit); isoCurrency is produced only from the same culture\'s CurrencyNameToIsoCodeMap; '
             'language purity and no dangling resource reads in registered configurations.',
     'note': 'Not decided: trie longest-match and the extractor\'s gap/ambiguity filters on a concrete sentence; the numeral\'s '
